@@ -438,3 +438,52 @@ pub fn reply_proto(d: &[u8]) -> Proto {
         Proto::Classic
     }
 }
+
+
+/// Raw UDP sender (needs CAP_NET_RAW): lets the harness send a datagram whose UDP *source port is 0*.
+/// Linux delivers it, but the server's reply to port 0 fails (EINVAL) -- the only way to make a
+/// send fail on loopback, i.e. an injected send fault that an attacker can also cause.
+pub struct RawUdp {
+    fd: i32,
+}
+
+impl RawUdp {
+    pub fn new() -> Option<RawUdp> {
+        let fd = unsafe { libc::socket(libc::AF_INET, libc::SOCK_RAW, libc::IPPROTO_UDP) };
+        if fd < 0 {
+            None
+        } else {
+            Some(RawUdp { fd })
+        }
+    }
+
+    pub fn send_from_port(&self, src_port: u16, dst: SocketAddr, payload: &[u8]) -> bool {
+        let SocketAddr::V4(d) = dst else { return false };
+        let len = 8 + payload.len();
+        if len > 65535 {
+            return false;
+        }
+        let mut pkt = Vec::with_capacity(len);
+        pkt.extend_from_slice(&src_port.to_be_bytes());
+        pkt.extend_from_slice(&d.port().to_be_bytes());
+        pkt.extend_from_slice(&(len as u16).to_be_bytes());
+        pkt.extend_from_slice(&[0, 0]); // checksum 0 = not computed (legal for UDP over IPv4)
+        pkt.extend_from_slice(payload);
+        let sa = libc::sockaddr_in {
+            sin_family: libc::AF_INET as u16,
+            sin_port: 0,
+            sin_addr: libc::in_addr { s_addr: u32::from_ne_bytes(d.ip().octets()) },
+            sin_zero: [0; 8],
+        };
+        let r = unsafe { libc::sendto(self.fd, pkt.as_ptr() as *const libc::c_void, pkt.len(), 0, &sa as *const libc::sockaddr_in as *const libc::sockaddr, std::mem::size_of::<libc::sockaddr_in>() as u32) };
+        r == pkt.len() as isize
+    }
+}
+
+impl Drop for RawUdp {
+    fn drop(&mut self) {
+        unsafe {
+            libc::close(self.fd);
+        }
+    }
+}
